@@ -15,3 +15,5 @@ vmod!(c10);
 vmod!(wl);
 #[cfg(not(feature = "shuttle"))]
 vmod!(c01);
+#[cfg(not(feature = "shuttle"))]
+vmod!(c02);
